@@ -245,9 +245,9 @@ class ClassicalDataDictionaryStore(ClassicalDataStore):
 
     def copy(self):
         return ClassicalDataDictionaryStore(
-            _records=self._records.copy(),
-            _measured_qubits=self._measured_qubits.copy(),
-            _channel_records=self._channel_records.copy(),
+            _records={k: v.copy() for k, v in self._records.items()},
+            _measured_qubits={k: v.copy() for k, v in self._measured_qubits.items()},
+            _channel_records={k: v.copy() for k, v in self._channel_records.items()},
             _measurement_types=self._measurement_types.copy(),
         )
 
